@@ -92,6 +92,9 @@ func (v DenseReal32Vector) SET(w DenseReal32Vector) {
   }
 }
 func (v DenseReal32Vector) SLICE(i, j int) DenseReal32Vector {
+  if i < 0 || j > len(v) || i > j {
+    panic("Slice(): range is out of bounds")
+  }
   return v[i:j]
 }
 func (v DenseReal32Vector) APPEND(w DenseReal32Vector) DenseReal32Vector {
@@ -142,6 +145,9 @@ func (v DenseReal32Vector) ReverseOrder() {
   }
 }
 func (v DenseReal32Vector) Slice(i, j int) Vector {
+  if i < 0 || j > len(v) || i > j {
+    panic("Slice(): range is out of bounds")
+  }
   return v[i:j]
 }
 func (v DenseReal32Vector) Swap(i, j int) {
@@ -205,6 +211,9 @@ func (v DenseReal32Vector) ConstAt(i int) ConstScalar {
   return v[i]
 }
 func (v DenseReal32Vector) ConstSlice(i, j int) ConstVector {
+  if i < 0 || j > len(v) || i > j {
+    panic("Slice(): range is out of bounds")
+  }
   return v[i:j]
 }
 func (v DenseReal32Vector) AsConstMatrix(n, m int) ConstMatrix {
@@ -219,6 +228,9 @@ func (v DenseReal32Vector) MagicAt(i int) MagicScalar {
   return v.AT(i)
 }
 func (v DenseReal32Vector) MagicSlice(i, j int) MagicVector {
+  if i < 0 || j > len(v) || i > j {
+    panic("Slice(): range is out of bounds")
+  }
   return v[i:j]
 }
 func (v DenseReal32Vector) ResetDerivatives() {
